@@ -15,7 +15,7 @@ import (
 func init() {
 	families["C19"] = famC19
 	rules["C19"] = "target types built with reflect.StructOf (fields of every supported kind behind 0-3 pointers, nested structs, slices of scalars/structs/pointers, untagged fields, tags that fail to compile, maps/arrays/channels/[][]T with tags) plus a static family " +
-		"(unexported tagged fields); target values: zero and pre-populated (non-nil pointers, existing slice contents), passed as *T, **T, ***T with nil links at every position, T (non-pointer), nil, nil pointers, slices with and without a pointer; " +
+		"(unexported tagged fields of scalar, slice, struct and pointer type, at the top and nested); target values: zero and pre-populated (non-nil pointers, existing slice contents), passed as *T, **T, ***T with nil links at every position, T (non-pointer), nil, nil pointers, slices with and without a pointer; " +
 		"results: one node, several nodes, the empty node-set, numbers, strings, booleans; observable: error/non-error/panic and the complete target value after the call (a type/value descriptor is derived by reflection and compared with the model's), " +
 		"freshness of pointer fields (new address, old pointee unchanged), field values equal separate Exec calls by construction of the model; out-of-range float->integer conversions are not compared; non-trivial: the call succeeds and changes the target; distinct by (type, value, result, document)"
 	// static tags need their AST by hand
@@ -52,6 +52,27 @@ type unexp2 struct {
 	B string `xsel:"b"`
 	a *int   `xsel:"a"`
 	C bool
+}
+
+// unexported tagged fields of composite type: the field is filled by recursion and then cannot be set
+type unexp3 struct {
+	B     string   `xsel:"b"`
+	items []string `xsel:"a"`
+	C     string   `xsel:"a"`
+}
+type unexp4 struct {
+	inner struct {
+		X string `xsel:"b"`
+	} `xsel:"a"`
+	B string `xsel:"b"`
+}
+type unexp5 struct {
+	B   string `xsel:"b"`
+	ptr *[]int `xsel:"a"`
+	sp  *struct {
+		X string `xsel:"a"`
+	} `xsel:"b"`
+	D []string `xsel:"b"`
 }
 
 // ---- descriptors by reflection ----
@@ -486,9 +507,12 @@ func famC19(rn *Runner) {
 			case k < 8:
 				bt = u.structType(2)
 			case k == 8:
-				bt = reflect.TypeOf(unexp{})
+				bt = pick(r, []reflect.Type{reflect.TypeOf(unexp{}), reflect.TypeOf(unexp3{}), reflect.TypeOf(unexp4{})})
 			case k == 9:
-				bt = reflect.TypeOf(unexp2{})
+				bt = pick(r, []reflect.Type{reflect.TypeOf(unexp2{}), reflect.TypeOf(unexp5{}), reflect.TypeOf([]unexp3{}), reflect.TypeOf(struct {
+					A string `xsel:"a"`
+					N unexp4 `xsel:"b"`
+				}{})})
 			case k < 12:
 				bt = reflect.SliceOf(pick(r, []reflect.Type{reflect.TypeOf(""), reflect.TypeOf(0), reflect.TypeOf(int8(0)), reflect.TypeOf(float32(0)), reflect.TypeOf(true),
 					reflect.PointerTo(reflect.TypeOf("")), reflect.PointerTo(reflect.PointerTo(reflect.TypeOf(0))), u.structType(1), reflect.PointerTo(u.structType(1)),
